@@ -30,5 +30,5 @@ worker() {
   done
   cd /; git -C /repo worktree remove --force $W
 }
-i=0; while [ $i -lt $N ]; do worker $i & i=$((i+1)); done; wait
+i=0; while [ $i -lt $N ]; do worker $i & i=$((i+1)); sleep 2; done; wait   # staggered: concurrent `git worktree add` calls can collide
 rm -f /tmp/par-list.$$
